@@ -355,34 +355,45 @@ def tyrving(ctx, repo):
 def qkids(ctx, repo):
     mod = repo.module(QK)
     fn = mod.func('qkids_score')
-    T = repo.const(QK, '_qkidsTables')
+    T = repo.const(QK, '_qkidsTables')     # the table as it stands after the module body ran (import-time changes included)
+    import re as _re
+    pr = repo.const('athlib/codes.py', 'PAT_RUN')
+    fl = pr.flags
+    if isinstance(fl, tuple) and fl[:2] == ('modattr', 're'):
+        fl = int(getattr(_re, fl[2]))
+    rx = _re.compile(pr.pattern, fl if isinstance(fl, int) else 0)
     n = 0
+    groups = {}
     for comp, tab in T.items():
         for ev, row in tab.items():
             n += 1
-            if not (isinstance(row, (list, tuple)) and len(row) >= 2 and isinstance(row[0], (int, float)) and row[0] > 0):
+            if not (isinstance(row, (list, tuple)) and len(row) >= 2 and isinstance(row[0], (int, float)) and row[0] != 0):
                 ctx.finding('QK', '%s::_qkidsTables::%s %s step' % (QK, comp, ev), QK, None,
-                            'QuadKids %s %s has step %r: it must be positive (a zero step divides by zero, a negative one inverts the scale)' % (
-                                comp, ev, row[0] if row else None), row[0] if row else None)
+                            'QuadKids %s %s has step %r: a zero or missing step divides by zero' % (comp, ev, row[0] if row else None),
+                            row[0] if row else None)
+                continue
+            groups.setdefault((bool(rx.match(ev)), '+' if row[0] > 0 else '-'), []).append('%s %s' % (comp, ev))
     ctx.count('table facts proved', n)
     ctx.floor('qkids rows', n, 40)
     perf = fn.args.args[2].arg
-    facts = {'row[0]': V('c', '+'), 'row[1]': V('c', '?')}
     test = None
     for x in ast.walk(fn):
-        if isinstance(x, ast.IfExp) and 'PAT_RUN' in ast.unparse(x.test):
+        if isinstance(x, (ast.IfExp, ast.If)) and 'PAT_RUN' in ast.unparse(x.test):
             test = ast.unparse(x.test)
-    if test is None:
-        raise AnalysisError('qkids_score: run/field selection not found')
-    for kind, val, want in (('run', True, 'd'), ('field', False, 'u')):
-        m = Mono(perf, facts, assume={test: val})
+    for (is_run, sign), rows in sorted(groups.items()):
+        kind = 'run' if is_run else 'field'
+        want = 'd' if is_run else 'u'
+        facts = {'row[0]': V('c', sign), 'row[1]': V('c', '?')}
+        m = Mono(perf, facts, assume={test: is_run} if test else {})
         rets = m.run(fn.body)
         if len(rets) != 1:
             raise AnalysisError('qkids_score: expected one return')
         res = rets[0][0]
-        report_dir(ctx, 'QK', '%s::qkids_score::%s direction' % (QK, kind), QK, rets[0][1].lineno, 'QuadKids %s events' % kind, res, want, m.notes)
+        key = '%s::qkids_score::%s direction' % (QK, kind) + ('' if sign == '+' else ' (rows with a negative step: %s)' % ', '.join(rows[:3]))
+        report_dir(ctx, 'QK', key, QK, rets[0][1].lineno, 'QuadKids %s events with step %s0 (%d rows, e.g. %s)' % (
+            kind, '>' if sign == '+' else '<', len(rows), rows[0]), res, want, m.notes)
         if res.lb == 10 and res.ub == 100:
-            ctx.ok('QK', 'QuadKids %s: clamped to 10..100' % kind)
+            ctx.ok('QK', 'QuadKids %s (step %s0): clamped to 10..100' % (kind, '>' if sign == '+' else '<'))
         else:
             ctx.finding('QK', '%s::qkids_score::bounds' % QK, QK, rets[0][1].lineno,
                         'the QuadKids result is bounded by [%s, %s], not clamped to 10..100' % (res.lb, res.ub))
